@@ -42,6 +42,7 @@ Proof. unfold chunks_of. apply flat_map_app. Qed.
 
 Section Invariants.
 Variable len : nat.
+Variable known : bool.
 Variable stop : nat -> bool.
 Variable dospawn : nat -> option nat -> bool.
 Variable nextc : nat -> option nat -> option nat.
@@ -52,9 +53,9 @@ Hypothesis nextc_pos : forall n h c, nextc n h = Some c -> 0 < c.
 Hypothesis maxt_pos : 1 <= maxt.
 
 Notation wstep := (wstep len stop).
-Notation step := (step len stop dospawn nextc).
-Notation run := (run len stop dospawn nextc).
-Notation sstep := (sstep len dospawn nextc).
+Notation step := (step len known stop dospawn nextc).
+Notation run := (run len known stop dospawn nextc).
+Notation sstep := (sstep len known dospawn nextc).
 
 (** the worker has not met a stopping position *)
 Definition nostop (w : worker) : Prop :=
@@ -205,10 +206,10 @@ Proof.
     - intros Hs. destruct (Gk Hs) as (w & m & Hw & Hm). exists w, m. split; auto. apply in_or_app; auto.
     - rewrite app_length. cbn. destruct ph'; lia. }
   destruct (sph s) as [j| | |] eqn:Ep.
-  - destruct (dospawn (length (ws s)) (has_more len s)) eqn:Ed.
+  - destruct (dospawn (length (ws s)) (has_more len known s)) eqn:Ed.
     + apply dospawn_bound in Ed. apply Hspawn; [lia|]. destruct j as [|[|j]]; lia.
     + constructor; cbn; auto.
-  - destruct (nextc (length (ws s)) (has_more len s)) as [c|] eqn:En.
+  - destruct (nextc (length (ws s)) (has_more len known s)) as [c|] eqn:En.
     + constructor; cbn; auto. eapply nextc_pos; eauto.
     + constructor; cbn; auto.
   - apply Hspawn; auto.
